@@ -338,12 +338,13 @@ def find_roots(
     manynodes = tuple(sorted(manynodes + list(knots)))
     matrixeval = eval_spline_nodes(knotvector, manynodes, degree)
     manyvalues = np.dot(np.transpose(matrixeval), ctrlvalues)
-    manyvalues = tuple(manyvalues)
+    manyvalues = list(manyvalues)
+    manynodes = list(manynodes)
+    exactroots = []  # Sampled nodes where the value is exactly zero
     while 0 in manyvalues:
         index = manyvalues.index(0)
         manyvalues.pop(index)
-        manynodes.pop(index)
-    # return tuple(sorted(manynodes))
+        exactroots.append(manynodes.pop(index))
 
     # Bissection algorithm
     lefts = []  # a
@@ -360,7 +361,7 @@ def find_roots(
             frigh.append(bval)
     nintervs = len(lefts)
     if nintervs == 0:
-        return tuple()
+        return tuple(exactroots)
     lefts = np.array(lefts, dtype="float64")
     righs = np.array(righs, dtype="float64")
     fleft = np.array(fleft, dtype="float64")
@@ -382,7 +383,7 @@ def find_roots(
             else:
                 lefts[i] = mednodes[i]
                 fleft[i] = medval
-    roots = (lefts + righs) / 2
+    roots = list((lefts + righs) / 2) + exactroots
     filtered_roots = []
     for root in roots:
         for filtroot in filtered_roots:
